@@ -380,8 +380,14 @@ def declare(spec):
              "and ref_eq(as_obj(newly_free_server.cust, 'Individual').server, newly_free_server))"),
             ("no-usable-server-nothing-happens",
              "implies(newly_free_server is None or not (newly_free_server in self.servers), same('service_start_date', 'service_end_date', 'server', 'number_in_service', 'cust', 'busy'))"),
+            ("C11+C12:a-pre-empted-customer-that-is-served-again-gets-the-time-its-option-prescribes",
+             "implies(newly_free_server is not None and newly_free_server in self.servers and newly_free_server.busy, "
+             "implies(oldf(as_obj(newly_free_server.cust, 'Individual'), 'service_time') == 'resume', "
+             "        as_obj(newly_free_server.cust, 'Individual').service_time == oldf(as_obj(newly_free_server.cust, 'Individual'), 'time_left')) and "
+             "implies(oldf(as_obj(newly_free_server.cust, 'Individual'), 'service_time') == 'restart', "
+             "        as_obj(newly_free_server.cust, 'Individual').service_time == oldf(as_obj(newly_free_server.cust, 'Individual'), 'original_service_time')))"),
         ],
-        props=["C02", "C04", "C05", "C08", "C10", "C12"])
+        props=["C02", "C04", "C05", "C08", "C10", "C11", "C12"])
 
     # ---- priority pre-emption decision: contracts/c_preempt.py
     M["wc"] = ("lambda n: isinf(n.c) or forall_in(n.servers, lambda s: s.busy) or "
